@@ -32,10 +32,18 @@ def gen_layout(rng, tier):
     dw = rng.choice([1, 2, 3, 4, 7, 8, 8, 8, 16, 32])
     al = rng.choice([0, 0, 0, 1, 2]) if aw >= 3 else 0
     nregs = rng.choice([0, 1, 2, 3, 4, 5, 6, 8])
+    maxw = 4
+    large = rng.random() < 0.15
+    if large:
+        # geometries beyond the small obvious ones: wide buses, many registers, registers of many chunks
+        aw = rng.choice([7, 8, 9, 10, 12])
+        dw = rng.choice([8, 16, 32, 64, 13])
+        nregs = rng.choice([8, 12, 16, 24])
+        maxw = rng.choice([4, 8, 9, 16, 17])
     regs = []
     for _ in range(nregs):
-        width = rng.choice([0, 1, dw - 1, dw, dw + 1, 2 * dw, 2 * dw + 1, 3 * dw, 4 * dw, 4 * dw + 1,
-                            rng.randint(0, 4 * dw + 1)])
+        width = rng.choice([0, 1, dw - 1, dw, dw + 1, 2 * dw, 2 * dw + 1, 3 * dw, maxw * dw, maxw * dw + 1,
+                            rng.randint(0, maxw * dw + 1)])
         width = max(0, width)
         acc = rng.choice(["r", "w", "rw", "rw"])
         place = rng.choice(["implicit", "implicit", "natural", "unaligned", "padded"])
@@ -45,7 +53,7 @@ def gen_layout(rng, tier):
     return {"aw": aw, "dw": dw, "al": al, "regs": regs,
             "overlaps": rng.choice([None, None, 0, 1, 2, 3]),
             "mode": rng.choice(["conf", "conf", "conf", "mixed", "raw"]),
-            "cycles": 260 if tier == "quick" else 700}
+            "cycles": (260 if tier == "quick" else 700) * (2 if large else 1)}
 
 
 def build_map(layout):
